@@ -64,7 +64,7 @@ v = [x for x in one_vector("MC_System.tla", {"Emit": True, "Part": "defs"}, ["Em
 expect_problem("system", replay_system.run_vector, v, lambda b: b["res"]["flows"][0].__setitem__("toid", 7))
 v = [x for x in one_vector("MC_Tables.tla", {"Part": "import", "MaxDims": 2, "MaxFaults": 0, "StyleIds": {1}, "Emit": True}, ["EmitInv"]) if len(x["result"]) > 2][0]
 expect_problem("tables", replay_tables.run_vector, v, lambda b: b["result"][0].__setitem__(1, b["result"][0][1] + 1))
-v = [x for x in one_vector("MC_Export.tla", {"Part": "sankey", "Schemes": {1}, "Emit": True}, ["EmitInv"]) if x["links"]][0]
+v = [x for x in one_vector("MC_Export.tla", {"Part": "sankey", "Schemes": {1}, "Emit": True, "Deep": False}, ["EmitInv"]) if x["links"]][0]
 expect_problem("export", replay_export.run_vector, v, lambda b: b["links"][0].__setitem__(3, b["links"][0][3] + 1))
 v = [x for x in one_vector("MC_StockObject.tla", {"MCVariant": "invalidating", "Depth": 3, "NDrivers": 2, "NPrms": 2, "Emit": True}, ["EmitInv"])
      if [s["op"] for s in x["hist"]] == ["set_prms", "compute", "set_driver"]]
